@@ -1135,6 +1135,15 @@ func (x *g) exprOf(k kind, depth int) string {
 			// unparenthesised chain: precedence matters
 			return fmt.Sprintf("(%s + %s * %s - %s)", x.expr(KInt, depth-1), x.expr(KInt, 0), x.expr(KInt, 0), x.expr(KInt, depth-1))
 		case 4:
+			if x.chance(0.3, "unary") {
+				// unary operators; occasionally on an operand that has none (the failure is the operator's)
+				op := []string{"-", "+", "~"}[x.intn(3, "unop")]
+				if x.risky("bad-unary") {
+					x.f("risky-unary")
+					return fmt.Sprintf("(%s%s)", op, x.exprOf([]kind{KStr, KList, KDict}[x.intn(3, "unk")], 0))
+				}
+				return fmt.Sprintf("(%s%s)", op, x.expr(KInt, depth-1))
+			}
 			d := 1 + x.intn(4, "divisor")
 			if x.risky("divzero") {
 				d = 0
